@@ -4,8 +4,11 @@
 //! Filesystem model (the assumptions the oracles rest on): bytes written are visible at once; they are
 //! durable only up to the length at the last successful `sync_all`; a crash freezes the filesystem and
 //! keeps every file's synced prefix plus a generated prefix of its unsynced suffix (the crash model the
-//! property states: "a crash losing any suffix of unsynced data"). Directory-entry durability
-//! (`sync_parent`) is recorded but not part of any verdict, because the property does not speak about it.
+//! property states: "a crash losing any suffix of unsynced data"). A file's directory entry is unsynced data
+//! too: it is durable only once `sync_parent` succeeded after the file was created (the mechanism the property
+//! is anchored in: "new files are created exclusively and the directory entry synced"), so a crash may lose a
+//! file whose entry was never synced, and content in such a file does not count as durable. Deletions that
+//! were never synced are NOT resurrected by the model (no verdict depends on them).
 
 use std::collections::BTreeMap;
 use std::io;
@@ -425,6 +428,8 @@ pub struct Attempt {
     pub after_overflow: bool,
     /// snapshot of the durable image right after the attempt returned: path -> synced bytes
     pub durable_after: BTreeMap<String, Vec<u8>>,
+    /// synced bytes of files whose directory entry had never been synced at that instant
+    pub entry_unsynced_after: BTreeMap<String, Vec<u8>>,
     /// own-set listing (existing files) right after the attempt returned
     pub listing_after: Vec<String>,
 }
@@ -435,6 +440,8 @@ pub struct CrashRec {
     pub after_attempt: usize,
     /// the image the new worker starts from: path -> bytes
     pub image: BTreeMap<String, Vec<u8>>,
+    /// files the crash took away because their directory entry had never been synced
+    pub lost_entries: Vec<String>,
 }
 
 pub struct Run {
@@ -529,7 +536,16 @@ pub fn is_own_name(name: &str, prefix: &str, ext: &str) -> bool {
 fn snapshot_durable(g: &FsState) -> BTreeMap<String, Vec<u8>> {
     g.files
         .iter()
-        .filter(|(_, f)| f.exists)
+        .filter(|(_, f)| f.exists && f.entry_durable)
+        .map(|(p, f)| (p.clone(), f.data[..f.synced_len].to_vec()))
+        .collect()
+}
+
+/// Synced content of files whose directory entry was never synced (a crash may lose the whole file).
+fn snapshot_entry_unsynced(g: &FsState) -> BTreeMap<String, Vec<u8>> {
+    g.files
+        .iter()
+        .filter(|(_, f)| f.exists && !f.entry_durable)
         .map(|(p, f)| (p.clone(), f.data[..f.synced_len].to_vec()))
         .collect()
 }
@@ -679,7 +695,7 @@ pub fn run(h: &Hist) -> Run {
                         Ok(Err(None)) => (AttemptResult::NoRetry, None),
                         Err(p) => (AttemptResult::Panic(p.msg), None),
                     };
-                    let (op1, crashed, durable, listing, gen) = {
+                    let (op1, crashed, durable, entry_unsynced, listing, gen) = {
                         let g = fs.0.lock().unwrap();
                         let listing: Vec<String> = g
                             .files
@@ -687,7 +703,7 @@ pub fn run(h: &Hist) -> Run {
                             .filter(|(p, f)| f.exists && Path::new(p).file_name().and_then(|n| n.to_str()).map_or(false, |n| is_own_name(n, &run.prefix, &run.ext)))
                             .map(|(p, _)| p.clone())
                             .collect();
-                        (g.log.len(), g.crashed, snapshot_durable(&g), listing, g.gen)
+                        (g.log.len(), g.crashed, snapshot_durable(&g), snapshot_entry_unsynced(&g), listing, g.gen)
                     };
                     let was_panic = matches!(result, AttemptResult::Panic(_));
                     let clock_end_ms = *clock.0.lock().unwrap();
@@ -703,6 +719,7 @@ pub fn run(h: &Hist) -> Run {
                         gen,
                         after_overflow: overflow_before.is_some(),
                         durable_after: durable,
+                        entry_unsynced_after: entry_unsynced,
                         listing_after: listing,
                     });
                     if crashed {
@@ -713,29 +730,35 @@ pub fn run(h: &Hist) -> Run {
                             let at_op = g.log.iter().rposition(|o| o.outcome == OpOutcome::Crashed).unwrap_or(0);
                             let mut image = BTreeMap::new();
                             let mut files = BTreeMap::new();
+                            let mut lost_entries: Vec<String> = Vec::new();
                             let old = std::mem::take(&mut g.files);
                             for (p, f) in old {
                                 if !f.exists {
                                     files.insert(p, f);
                                     continue;
                                 }
-                                // the crash model of the property: any suffix of unsynced data is lost.
-                                // (Directory-entry durability is tracked in `entry_durable` for
-                                // classification only; the statement does not speak about it.)
+                                // the crash model of the property: any suffix of unsynced data is lost --
+                                // including the directory entry of a file created since the last
+                                // successful sync of its directory (then the whole file is gone)
                                 let unsynced = f.data.len() - f.synced_len;
-                                let extra = vcore::pick(image_choices.next().unwrap(), unsynced + 1);
+                                let choice = image_choices.next().unwrap();
+                                if !f.entry_durable && choice & 1 == 0 {
+                                    lost_entries.push(p.clone());
+                                    continue;
+                                }
+                                let extra = vcore::pick(choice, unsynced + 1);
                                 let data = f.data[..f.synced_len + extra].to_vec();
                                 image.insert(p.clone(), data.clone());
                                 files.insert(
                                     p,
-                                    FileSt { synced_len: data.len(), data, entry_durable: f.entry_durable, exists: true, deleted_nondurably: false, preexisting: f.preexisting, created_seq: f.created_seq },
+                                    FileSt { synced_len: data.len(), data, entry_durable: true, exists: true, deleted_nondurably: false, preexisting: f.preexisting, created_seq: f.created_seq },
                                 );
                             }
                             g.files = files;
                             g.crashed = false;
                             g.gen += 1;
                             // remaining faults in the plan stay in force (a later fault may hit the new worker)
-                            run.crashes.push(CrashRec { at_op, after_attempt: run.attempts.len() - 1, image: image.clone() });
+                            run.crashes.push(CrashRec { at_op, after_attempt: run.attempts.len() - 1, image: image.clone(), lost_entries });
                             image
                         };
                         let _ = image;
